@@ -222,6 +222,67 @@ func smbCountFaults() [][]byte {
 	return out
 }
 
+// smbStringTailFaults: structured faults of the strings in a data block. The five buffer formats differ in what
+// follows the format byte (a NUL-terminated run; a 16-bit length and that many bytes; length, bytes and a
+// terminator), and a decoder that chains several strings trusts the byte count each one reports. A hostile peer
+// is modelled by cutting the data block of a valid message at a position and ending it with a string of each
+// format whose declared length is exactly what is left, one more than what is left, or followed by its
+// terminator - the byte count of the block is set to what is really there, so the message is well framed and
+// the command decoder is reached. Positions: everywhere in a short data block, otherwise where a format byte
+// stands in the valid encoding (all positions up to 96 in the thorough tier).
+func smbStringTailFaults(thorough bool) [][]byte {
+	var tails [][]byte
+	for f := byte(1); f <= 5; f++ {
+		for _, l := range []int{0, 1, 3} {
+			content := bytes.Repeat([]byte{'A'}, l)
+			exact := append([]byte{f, byte(l), 0}, content...) // declared length = what is there, nothing after it
+			tails = append(tails, exact, append(append([]byte{}, exact...), 0))
+			tails = append(tails, append([]byte{f, byte(l + 1), 0}, content...))                           // one byte short
+			tails = append(tails, append(append([]byte{f}, content...), 0), append([]byte{f}, content...)) // NUL-terminated forms
+		}
+	}
+	var out [][]byte
+	for _, e := range smbgen.Inventory() {
+		var seeds [][]byte
+		if b := encodeSMB(e, smbgen.NewValid(e)); len(b) > 0 {
+			seeds = append(seeds, b)
+		}
+		gen := rapid.Custom(func(t *rapid.T) []byte {
+			rapid.Bool().Draw(t, "x")
+			cmd := smbgen.New(e)
+			smbgen.Fill(t, cmd, smbgen.Options{MaxBytes: 6})
+			return encodeSMB(e, cmd)
+		})
+		if b := gen.Example(1); len(b) > 0 {
+			seeds = append(seeds, b)
+		}
+		for _, b := range seeds {
+			if len(b) < 35 {
+				continue
+			}
+			wc := int(b[32])
+			bcAt := 33 + 2*wc
+			if bcAt+2 > len(b) {
+				continue
+			}
+			dataStart := bcAt + 2
+			bc := len(b) - dataStart
+			for p := 0; p <= bc && p <= 96; p++ {
+				if !thorough && bc > 12 && p != 0 && p != bc && !(b[dataStart+p] >= 1 && b[dataStart+p] <= 5) {
+					continue
+				}
+				for _, tl := range tails {
+					m := append(append([]byte{}, b[:dataStart+p]...), tl...)
+					n := p + len(tl)
+					m[bcAt], m[bcAt+1] = byte(n), byte(n>>8)
+					out = append(out, m)
+				}
+			}
+		}
+	}
+	return out
+}
+
 func llmnrSeeds() [][]byte {
 	m := &dns.Message{ID: 0x1234, Flags: 0x8000,
 		Questions:  []dns.Question{{Name: dns.Name{[]byte("host"), []byte("local")}, Type: 1, Class: 1}},
